@@ -235,7 +235,7 @@ func (s sortedMemberMatcher) Less(i, j int) bool { return s[i].Path.Less(s[j].Pa
 func (s sortedMemberMatcher) Swap(i, j int)      { s[i], s[j] = s[j], s[i] }
 func (s sortedMemberMatcher) Find(p PathElementMatcher) (location int, ok bool) {
 	return sort.Find(len(s), func(i int) int {
-		return s[i].Path.Compare(p)
+		return p.Compare(s[i].Path)
 	})
 }
 
